@@ -150,6 +150,16 @@ pub fn run_case(a: &Args, tag: &'static str, idx: u64, acc: &mut Acc) {
     let mut rng = Rng::derive(a.seed, tag, idx);
     let mut pool: Vec<&'static str> = NAMES.to_vec();
     rng.shuffle(&mut pool);
+    // two cases in three: two of the three names are string extensions of one another (`a` / `a.b`), so that
+    // siblings, sources and destinations whose path text merely starts with another entry's path are common
+    const FAMILIES: &[(&str, &str)] = &[("a", "ab"), ("a", "a.b"), ("a", "a\\b"), ("a", "a b"), ("a", "a-1"), ("b", "b2"), ("é", "éé"), (".h", ".h.x"), ("d.x", "d.x.y"), ("x_w", "x_w2"), ("..x", "..x.")];
+    // (never a pair (n, n_wo): that is the overlay's marker-naming clash, probed on its own in props/alias.rs — KF3)
+    if rng.chance(2, 3) {
+        let (base, ext) = *rng.pick(FAMILIES);
+        pool.retain(|n| *n != base && *n != ext);
+        pool.insert(0, base);
+        pool.insert(1, ext);
+    }
     let names = &pool[..3];
     let cfg_a = side_cfg(&mut rng);
     let pairing = rng.below(3); // 0 same instance, 1 twin instance of the same config, 2 other config
